@@ -290,7 +290,13 @@ func ParseRealtime(content []byte, opts *ParseRealtimeOptions) (*Realtime, error
 	vehiclesByID := map[VehicleID]*Vehicle{}
 	tripIDToVehicleID := map[TripID]VehicleID{}
 	vehicleIDToTripID := map[VehicleID]TripID{}
-	vehiclesWithNoID := []Vehicle{}
+	vehiclesWithNoID := []*Vehicle{}
+	// Trips associated, in the same entity, with a vehicle that has no ID.
+	type noIDLink struct {
+		tripID  TripID
+		vehicle *Vehicle
+	}
+	var noIDLinks []noIDLink
 	for i, entity := range feedMessage.Entity {
 		if shouldSkip[i] {
 			continue
@@ -339,7 +345,7 @@ func ParseRealtime(content []byte, opts *ParseRealtimeOptions) (*Realtime, error
 				}
 				mergeVehicle(vehiclesByID[*vehicle.ID], *vehicle)
 			} else {
-				vehiclesWithNoID = append(vehiclesWithNoID, *vehicle)
+				vehiclesWithNoID = append(vehiclesWithNoID, vehicle)
 			}
 		}
 		if trip != nil && vehicle != nil {
@@ -349,11 +355,16 @@ func ParseRealtime(content []byte, opts *ParseRealtimeOptions) (*Realtime, error
 				tripIDToVehicleID[trip.ID] = *vehicle.ID
 				vehicleIDToTripID[*vehicle.ID] = trip.ID
 			} else {
-				trip.Vehicle = vehicle
+				noIDLinks = append(noIDLinks, noIDLink{tripID: trip.ID, vehicle: vehicle})
 			}
 		}
 	}
 
+	for _, link := range noIDLinks {
+		trip := tripsById[link.tripID]
+		trip.Vehicle = link.vehicle
+		link.vehicle.Trip = trip
+	}
 	for tripID, trip := range tripsById {
 		if vehicleID, ok := tripIDToVehicleID[tripID]; ok {
 			trip.Vehicle = vehiclesByID[vehicleID]
@@ -371,7 +382,9 @@ func ParseRealtime(content []byte, opts *ParseRealtimeOptions) (*Realtime, error
 		}
 		result.Vehicles = append(result.Vehicles, *vehicle)
 	}
-	result.Vehicles = append(result.Vehicles, vehiclesWithNoID...)
+	for _, vehicle := range vehiclesWithNoID {
+		result.Vehicles = append(result.Vehicles, *vehicle)
+	}
 	return &result, nil
 }
 
